@@ -112,6 +112,6 @@ int qsx_lowprec_commands (const char *c)
 		putchar ('\n');
 		mpq_clear (q);
 	}
-	else return 0;
+	else { extern int qsx_ratio_commands (const char *c); return qsx_ratio_commands (c); }
 	return 1;
 }
